@@ -24,4 +24,33 @@ PROPS = {
             "trichotomy assumes int/uint->float conversions never produce NaN (FloatOps.ConvNoNaN)",
         ],
     },
+    "C16": {
+        "lean": ["UgoVerif.Props.C16"],
+        "gen": [],
+        "streams": ["pos"],
+        "required_theorems": ["position_spec", "lineStart_spec", "position_in_file", "file_unique",
+                              "newFileSet_wf", "addFile_wf", "lines_spec", "shift_lines", "shift_table",
+                              "sourcepos_nearest", "addTrace_spec", "trace_shape", "C16_partial"],
+        "partial": [
+            "C16_partial: C16_full Reach holds given `SavedIpInCallStmt` for every reachable throw site "
+            "(current ip maps to the failing statement; saved ip+1 of each active frame maps into its call "
+            "statement; no handler below) - this VM/compiler fact needs Model/VM + Model/Compile and is only "
+            "tested (stream `pos` oracle); `def C16_full` stays visible in Props/C16.lean",
+            "optimizer_keeps_pos and encoder-preserves-FileSet/SourceMap are not Lean theorems here: tested by the "
+            "oracle (optimizer on/off, encode/decode round trip) and owned by C01/C04",
+        ],
+        "trusted": [
+            "hand models Model/SourceFile.lean (AddFile, AddLine, searchInts, sort.Search, Position, File incl. the "
+            "LastFile cache, LineStart, Offset, SourcePos, scanner line table) and Model/Trace.lean (addTrace, "
+            "StackTrace, trace part of throw) tied by stream `pos`",
+            "verif hook verif_pos.go (RuntimeError.VerifAddTrace / VerifSetFileSet)",
+        ],
+        "assumptions": [
+            "AST positions (node.Pos()) come from the unmodelled scanner/parser; only the scanner's AddLine call "
+            "sequence is modelled (scanLines) and compared with the real scanner on random texts",
+            "the trace part of vm.throw (Model/Trace.throwTrace) is tied only through whole-program runs "
+            "(oracle + StackTrace of real traces), not lock-step",
+            "Go int is 64 bit; nil entries in SourceFileSet.Files and the unsynchronised LastFile write (C08) are not modelled",
+        ],
+    },
 }
